@@ -25,6 +25,23 @@ extern "C" int h_algebra(unsigned d, const double* in, double* out){
     return 0;
   }catch(...){ return 1; }
 }
+// the arithmetic classes with every value symbolic (no matrix exponential: its estimator loops on values)
+extern "C" int h_algebra_sym(unsigned d, const double* in, double* out, double t, double th, double del, double sc){
+  try{
+    SU_vector a(d), b(d), c;
+    for(unsigned k=0;k<d*d;k++){ a[k]=in[k]; b[k]=in[d*d+k]; }
+    c = a + b;
+    c += iCommutator(a,b)*sc;
+    c -= ACommutator(a,c);
+    c = c.Evolve(SU_vector::PosProjector(d,1),t);
+    c = c.Rotate(0,1,th,del);
+    double tr = c*a;
+    auto m = c.GetGSLMatrix();
+    SU_vector e(m.get());
+    for(unsigned k=0;k<d*d;k++) out[k]=e[k]+tr;
+    return 0;
+  }catch(...){ return 1; }
+}
 // vectors handed from one thread to another: created here ...
 extern "C" int h_make(void* slot, unsigned d, double v){ try{ new(slot) SU_vector(d); static_cast<SU_vector*>(slot)->SetAllComponents(v); return 0; }catch(...){ return 1; } }
 // ... and released there
